@@ -9,6 +9,7 @@
 import Stfs.Proofs.Like
 import Stfs.Model.Trig
 import Stfs.Proofs.Spelling
+import Stfs.Proofs.Frame
 import Stfs.Gen.Fingerprints
 namespace Stfs.C12
 open Stfs
@@ -181,6 +182,42 @@ theorem moveItems_names (from_ to : Name) (rows : List Row) (env : EnvRecs) :
   simp [moveItems, movedName, Row.toHdr]
 
 example : movedName (n!"/a/b") (n!"/x") (n!"/a/b/c/d") = (n!"/x/c/d") := by decide
+
+/-- (6) DELETE records touch only the rows they name.  Applying any sequence of DELETE records
+    for absolute names to an index with an absolute root leaves every row whose name is neither
+    one of those names nor the root exactly as it was (present or absent, live or tombstone, with
+    all its columns).  With `deleteItems_names` (the records a recursive remove writes carry
+    exactly the names of the selected rows) and `children_exact_partial` (the selected rows are
+    exactly the rows beneath the directory), no entry outside the subtree is deleted or altered. -/
+theorem delete_records_touch_only_their_names (recs : List (Name × Int × Int))
+    (habs : ∀ r ∈ recs, hasPrefix r.1 [slash] = true) :
+    ∀ p : Idx, AbsRoot p →
+      SameOutside (p.root :: recs.map (·.1)) p.rows
+        (recs.foldl (fun q r => (q.deleteHeader r.1 r.2.1 r.2.2).1) p).rows := by
+  induction recs with
+  | nil => intro p _; exact SameOutside.refl _ _
+  | cons r rest ih =>
+    intro p hr
+    have hn := habs r (by simp)
+    have h1 := Idx.deleteHeader_frame p r.1 r.2.1 r.2.2
+    have hroot := deleteHeader_root p r.1 r.2.1 r.2.2 hr hn
+    have hr' : AbsRoot (p.deleteHeader r.1 r.2.1 r.2.2).1 := by unfold AbsRoot; rw [hroot]; exact hr
+    have h2 := ih (fun x hx => habs x (List.mem_cons_of_mem _ hx)) _ hr'
+    rw [hroot] at h2
+    simp only [List.foldl_cons, List.map_cons]
+    refine (h1.trans h2).mono ?_
+    intro x hx
+    rcases List.mem_append.mp hx with h | h
+    · simp only [List.mem_singleton] at h
+      rcases (sanitize_abs p r.1 hr hn).2 with e | e
+      · rw [h, e]; simp
+      · rw [h, e]; simp
+    · rcases List.mem_cons.mp h with h | h
+      · rw [h]; simp
+      · exact List.mem_cons_of_mem _ (List.mem_cons_of_mem _ h)
+
+/-- the premises are satisfiable: an index with the root `/` and one absolute name to delete -/
+example : AbsRoot ({ root := n!"/" } : Idx) ∧ hasPrefix (n!"/a/b") [slash] = true := by unfold AbsRoot; decide
 
 -- MIRRORS-BEGIN (maintained by bin/update-mirrors)
 /-- The parts of the model this file's theorems are about were written by hand against these
